@@ -107,6 +107,16 @@ M = [
  ("g KeyIndices", "keep", "comma-ok as a separate statement", "\t\t\t\tif _, ok := seen[i]; ok {\n", "\t\t\t\t_, ok := seen[i]\n\t\t\t\tif ok {\n"),
  ("g KeyIndices", "keep", "found = true before the append", "\t\t\t\tres = append(res, uint32(i))\n\t\t\t\tfound = true\n", "\t\t\t\tfound = true\n\t\t\t\tres = append(res, uint32(i))\n"),
  ("g KeyIndices", "keep", "k == c for c == k", "\t\t\tif c == k {\n\t\t\t\tif _, ok := seen[i]; ok {", "\t\t\tif k == c {\n\t\t\t\tif _, ok := seen[i]; ok {"),
+ ("h encodeObjTypeAndLen", "break", "continuation shift by 8", "\t\tb[i] = 128 | uint8(u>>bits)\n\t\tbits += 7\n", "\t\tb[i] = 128 | uint8(u>>bits)\n\t\tbits += 8\n"),
+ ("h encodeObjTypeAndLen", "break", "last byte keeps bit 7", "\tb[numBytes-1] &= 127\n", "\tb[numBytes-1] &= 255\n"),
+ ("h encodeObjTypeAndLen", "break", "type shifted by 3", "uint8(objType)<<4", "uint8(objType)<<3"),
+ ("h encodeObjTypeAndLen", "break", "no minimum of two bytes", "\tif numBytes == 1 {\n\t\tnumBytes = 2\n\t}\n", ""),
+ ("h encodeObjTypeAndLen", "break", "loop stops one byte early", "for i := 1; i < numBytes; i++ {", "for i := 1; i < numBytes-1; i++ {"),
+ ("h encodeObjTypeAndLen", "break", "(bits-4)%7 > 0 becomes >= 0", "if (bits-4)%7 > 0 {", "if (bits-4)%7 >= 0 {"),
+ ("h encodeObjTypeAndLen", "keep", "rename variables", None, [("numBytes", "nb"), ("b := buf.Buffer(nb)", "out := buf.Buffer(nb)"), ("\tb[0] = ", "\tout[0] = "), ("\t\tb[i] = ", "\t\tout[i] = "), ("\tb[nb-1] &= 127\n\treturn b\n", "\tout[nb-1] &= 127\n\treturn out\n")]),
+ ("h encodeObjTypeAndLen", "keep", "numBytes++ for += 1", "\t\tnumBytes += 1\n", "\t\tnumBytes++\n"),
+ ("h encodeObjTypeAndLen", "keep", "0 < (bits-4)%7", "if (bits-4)%7 > 0 {", "if 0 < (bits-4)%7 {"),
+ ("h encodeObjTypeAndLen", "keep", "mask operands swapped", "(uint8(u) & 15)", "(15 & uint8(u))"),
 ]
 def sh(cmd, cwd=None, timeout=900):
     t0 = time.time()
